@@ -200,11 +200,14 @@ func CheckStringTypeChanges(diffs []TypeDiff, type1, type2 *spec.SchemaProps) []
 		if type1.Pattern != type2.Pattern {
 			diffs = addTypeDiff(diffs, TypeDiff{Change: ChangedType, Description: fmt.Sprintf("Pattern Changed:%s->%s", type1.Pattern, type2.Pattern)})
 		}
-		if type1.Type[0] == StringType {
-			if len(type1.Enum) > 0 {
-				enumDiffs := CompareEnums(type1.Enum, type2.Enum)
-				diffs = append(diffs, enumDiffs...)
-			}
+		switch {
+		case len(type1.Enum) > 0 && len(type2.Enum) > 0:
+			enumDiffs := CompareEnums(type1.Enum, type2.Enum)
+			diffs = append(diffs, enumDiffs...)
+		case len(type1.Enum) > 0:
+			diffs = addTypeDiff(diffs, TypeDiff{Change: DeletedConstraint, Description: fmt.Sprintf("Enum(%v)", type1.Enum)})
+		case len(type2.Enum) > 0:
+			diffs = addTypeDiff(diffs, TypeDiff{Change: AddedConstraint, Description: fmt.Sprintf("Enum(%v)", type2.Enum)})
 		}
 	}
 	return diffs
